@@ -45,3 +45,63 @@ def check(ctx, rep, P, rule, groups):
                            sample="%s: %s derived" % (ty.split("::")[-1], trait.split("::")[-1]))
     rep.floor("identity-impls", n, len([1 for g in groups for _ in WANTS[g]]))
     rep.instance(n)
+
+
+# RD.2 — the membership / state containers are keyed by the full member id (or the full key string).  The tables model a map
+# lookup as "the entry of that id"; a map keyed by something coarser (node_id, gossip address) merges members.
+KEYED = {
+    "fd-sets": [("failure_detector::FailureDetector", "node_samples", "types::ChitchatId"), ("failure_detector::FailureDetector", "live_nodes", "types::ChitchatId"),
+                ("failure_detector::FailureDetector", "dead_nodes", "types::ChitchatId")],
+    "cluster": [("state::ClusterState", "node_states", "types::ChitchatId"), ("state::ClusterState", "garbage_collected_nodes", "types::ChitchatId")],
+    "watch": [("Chitchat", "previous_live_nodes", "types::ChitchatId"), ("Chitchat", "live_nodes_watcher_tx", "types::ChitchatId")],
+    "kv": [("state::NodeState", "key_values", "std::string::String")],
+    "digest": [("digest::Digest", "node_digests", "types::ChitchatId")],
+    "listeners": [("listener::InnerListeners", "listeners", "std::string::String")],
+}
+
+
+def _first_generic_arg(ty):
+    """key type of Map<K, V> / Set<K> / LruCache<K, V> / Sender<Map<K, V>>: first type argument of the innermost-first container"""
+    i = ty.find("<")
+    if i < 0:
+        return None
+    depth, j, start = 0, i, i + 1
+    while j < len(ty):
+        c = ty[j]
+        if c == "<":
+            depth += 1
+        elif c == ">":
+            depth -= 1
+            if depth == 0:
+                return ty[start:j].strip()
+        elif c == "," and depth == 1:
+            return ty[start:j].strip()
+        j += 1
+    return None
+
+
+def check_keys(ctx, rep, P, rule, groups):
+    rep.rule(rule, "container key types: the membership / state maps are keyed by the full member id (key-values and listeners by the full string)")
+    fx = ctx.fx
+    n = 0
+    for g in groups:
+        for adt, field, want in KEYED[g]:
+            a = fx.adts.get(adt)
+            ty = None
+            if a:
+                for v in a["variants"]:
+                    for f in v["fields"]:
+                        if f["name"] == field:
+                            ty = f.get("ty")
+            n += 1
+            if ty is None:
+                rep.obligation(False, "%s/%s/anchor-lost/%s.%s" % (P, rule, adt.split("::")[-1], field), "field %s.%s not found" % (adt, field), None)
+                continue
+            k = _first_generic_arg(ty)
+            while k and k.startswith(("std::collections::", "tokio::sync::")) and "<" in k:   # Sender<BTreeMap<K, V>>
+                k = _first_generic_arg(k)
+            rep.obligation(k == want, "%s/%s/key-type/%s.%s" % (P, rule, adt.split("::")[-1], field),
+                           "%s.%s is keyed by %s (type %s); the rules model it as keyed by %s" % (adt, field, k, ty, want), None,
+                           sample="%s.%s keyed by %s" % (adt.split("::")[-1], field, want.split("::")[-1]))
+    rep.floor("keyed-containers", n, len([1 for g in groups for _ in KEYED[g]]))
+    rep.instance(n)
